@@ -198,11 +198,14 @@ template <> struct conv<IPv6Address, void> { static const int kind = 5; static c
 template <size_t n> struct conv<HWAddress<n>, void> { static const int kind = 6; static const int bits = 8 * n; static HWAddress<n> from(uint64_t v) { uint8_t b[n]; for (size_t i = 0; i < n; ++i) b[i] = (uint8_t)(v >> (8 * ((n - 1 - i) % 8))); return HWAddress<n>(b); } };
 // structured values (typed options): everything is derived from the one 64-bit script value
 inline uint64_t mix(uint64_t v, uint64_t i) { uint64_t z = v + 0x9e3779b97f4a7c15ULL * (i + 1); z = (z ^ (z >> 30)) * 0xbf58476d1ce4e5b9ULL; z = (z ^ (z >> 27)) * 0x94d049bb133111ebULL; return z ^ (z >> 31); }
-template <> struct conv<std::vector<uint8_t>, void> { static const int kind = 8; static const int bits = 64; static std::vector<uint8_t> from(uint64_t v) { std::vector<uint8_t> b(v % 23); for (size_t i = 0; i < b.size(); ++i) b[i] = (uint8_t)mix(v, i); return b; } };
-template <> struct conv<std::string, void> { static const int kind = 8; static const int bits = 64; static std::string from(uint64_t v) { std::string b(v % 17, 'a'); for (size_t i = 0; i < b.size(); ++i) b[i] = (char)('a' + mix(v, i) % 26); return b; } };
+static thread_local int g_len_hint = -1, g_str_hint = -1;
+template <> struct conv<std::vector<uint8_t>, void> { static const int kind = 8; static const int bits = 64; static std::vector<uint8_t> from(uint64_t v) { std::vector<uint8_t> b(g_len_hint >= 0 ? (size_t)g_len_hint : v % 23); for (size_t i = 0; i < b.size(); ++i) b[i] = (uint8_t)mix(v, i); return b; } };
+// inside a struct, two values in three give all member containers one common length (setters such as country() demand it), and one in three
+// gives member strings the length 3 (country codes)
+template <> struct conv<std::string, void> { static const int kind = 8; static const int bits = 64; static std::string from(uint64_t v) { std::string b(g_str_hint >= 0 ? (size_t)g_str_hint : v % 17, 'a'); for (size_t i = 0; i < b.size(); ++i) b[i] = (char)('a' + mix(v, i) % 26); return b; } };
 template <class T> struct elem_from { static T get(uint64_t v) { return conv<T>::kind == 2 ? conv<T>::from(v % 4) : conv<T>::from(v); } };
 template <size_t n> struct elem_from<small_uint<n> > { static small_uint<n> get(uint64_t v) { return conv<small_uint<n> >::from(v & ((1ULL << n) - 1)); } };
-template <class T> struct conv<std::vector<T>, void> { static const int kind = conv<T>::kind > 0 ? 9 : 0; static const int bits = 64; static std::vector<T> from(uint64_t v) { std::vector<T> r; for (size_t i = 0; i < v % 4; ++i) r.push_back(elem_from<T>::get(mix(v, i))); return r; } };
+template <class T> struct conv<std::vector<T>, void> { static const int kind = conv<T>::kind > 0 ? 9 : 0; static const int bits = 64; static std::vector<T> from(uint64_t v) { std::vector<T> r; size_t n = g_len_hint >= 0 ? (size_t)g_len_hint : v % 4; for (size_t i = 0; i < n; ++i) r.push_back(elem_from<T>::get(mix(v, i))); return r; } };
 template <class T> struct conv<std::list<T>, void> { static const int kind = conv<T>::kind > 0 ? 9 : 0; static const int bits = 64; static std::list<T> from(uint64_t v) { std::list<T> r; for (size_t i = 0; i < v % 4; ++i) r.push_back(elem_from<T>::get(mix(v, i))); return r; } };
 template <class A, class B> struct conv<std::pair<A, B>, void> { static const int kind = (conv<A>::kind > 0 && conv<B>::kind > 0) ? 9 : 0; static const int bits = 64; static std::pair<A, B> from(uint64_t v) { return std::pair<A, B>(elem_from<A>::get(mix(v, 1)), elem_from<B>::get(mix(v, 2))); } };
 template <class T> void fill(T& f, uint64_t v) { if (conv<T>::kind > 0) f = elem_from<T>::get(v); }
@@ -237,7 +240,7 @@ def generate(gen_dir=None):
             structs.append(('%s::%s' % (c, n['name']), n['fields']))
     fwd = ''.join('std::string to_str(const %s& v);\n' % q for q, _ in structs)
     cv = ''.join('template <> struct conv<%s, void> { static const int kind = 7; static const int bits = 64; static %s from(uint64_t v); };\n' % (q, q) for q, _ in structs)
-    cv += ''.join('inline %s conv<%s, void>::from(uint64_t v) { %s r; %s return r; }\n' % (q, q, q, ' '.join('fill(r.%s, mix(v, %d));' % (f, i + 1) for i, f in enumerate(fs))) for q, fs in structs)
+    cv += ''.join('inline %s conv<%s, void>::from(uint64_t v) { %s r; int sl = g_len_hint, ss = g_str_hint; if (v %% 3) g_len_hint = (int)((v / 3) %% 5); if (v %% 3 == 1) g_str_hint = 3; %s g_len_hint = sl; g_str_hint = ss; return r; }\n' % (q, q, q, ' '.join('fill(r.%s, mix(v, %d));' % (f, i + 1) for i, f in enumerate(fs))) for q, fs in structs)
     defs = ''.join('inline std::string to_str(const %s& v) { std::string s = "{"; %s return s + "}"; }\n' % (q, ' '.join('s += "%s%s=" + to_str_any(v.%s, 0);' % (',' if i else '', f, f) for i, f in enumerate(fs))) for q, fs in structs)
     L = [HEADER.replace('//@STRUCT_FWD@\n', fwd).replace('//@STRUCT_CONV@\n', cv), defs]
     # order: most derived first for dispatch
